@@ -186,13 +186,31 @@ pub fn native_subjects(prop: &str) -> Vec<Subject> {
         }),
         ub(&specs::descramble(&bits, 0x21, 0, 16)),
     ));
-    for (code, allowed) in [(vec![1u8], 0usize), (vec![1, 0, 1], 0), (vec![1, 0, 1], 1), (vec![0, 1, 1, 0, 1, 0, 0, 1], 2)] {
+    // The last two: a stream that starts with (a prefix of) the code itself,
+    // so that the first code-length samples matter.
+    for (code, allowed, lead) in [
+        (vec![1u8], 0usize, false),
+        (vec![1, 0, 1], 0, false),
+        (vec![1, 0, 1], 1, false),
+        (vec![0, 1, 1, 0, 1, 0, 0, 1], 2, false),
+        (vec![1, 0, 1], 0, true),
+        (vec![1, 1, 0, 1, 0, 0, 1, 0], 1, true),
+    ] {
+        let bits: Vec<u8> = if lead {
+            let mut b = code.clone();
+            b.extend(&bits[..12]);
+            b
+        } else {
+            bits.clone()
+        };
+        let tags: InTags = if lead { vec![] } else { tags.clone() };
+        let id_tags = if lead { vec![] } else { id_tags.clone() };
         let corr = specs::correlate(&bits, &code, allowed);
         let c2 = code.clone();
         v.push(with_samples(
             s11(
                 "CorrelateAccessCode",
-                format!("code={code:?} allowed={allowed}"),
+                format!("code={code:?} allowed={allowed}{}", if lead { " stream starts with the code" } else { "" }),
                 1,
                 bits.clone(),
                 tags.clone(),
@@ -215,7 +233,7 @@ pub fn native_subjects(prop: &str) -> Vec<Subject> {
         v.push(with_samples_tags(
             s11(
                 "CorrelateAccessCodeTag",
-                format!("code={code:?} allowed={allowed}"),
+                format!("code={code:?} allowed={allowed}{}", if lead { " stream starts with the code" } else { "" }),
                 1,
                 bits.clone(),
                 tags.clone(),
